@@ -100,7 +100,19 @@ impl Module for Ring {
             send(Message::default().with_content([ttl - 1, token, now(), self.lat]), "out");
         }
     }
+
+    fn at_sim_end(&mut self) -> Result<(), RuntimeError> {
+        // a good-bye that is buffered but never dispatched: it must die with this simulation and must not
+        // show up in a later simulation of the same process
+        if self.i % 2 == 0 {
+            schedule_in(Message::default().with_content([0u64, 900 + self.i, u64::MAX, 0]), Duration::from_nanos(7));
+        }
+        Ok(())
+    }
 }
+
+struct Idle;
+impl Module for Idle {}
 
 /// one execution; returns (message log, everything else that is observable)
 fn run_once(nums: &[u64]) -> (Vec<u64>, Vec<u64>) {
@@ -148,6 +160,20 @@ fn run_once(nums: &[u64]) -> (Vec<u64>, Vec<u64>) {
         });
         out.connect(inp, Some(ch));
     }
+    // a diamond beside the ring: src -> r0..r{p-1} -> dst, all paths of equal cost; which first hop a
+    // shortest-path query reports must not depend on the process or on earlier simulations
+    let p = 2 + (seed % 3) as usize;
+    sim.node("src", Idle);
+    sim.node("dst", Idle);
+    let souts = sim.gates("src", "out", p);
+    let dins = sim.gates("dst", "in", p);
+    for i in 0..p {
+        sim.node(format!("r{i}"), Idle);
+        let a = sim.gate(format!("r{i}"), "a");
+        let b = sim.gate(format!("r{i}"), "b");
+        souts[i].clone().connect(a, None);
+        b.connect(dins[i].clone(), None);
+    }
     let refs: Vec<_> = (0..k)
         .map(|i| sim.get(&ObjectPath::from(format!("n{i}"))).expect("module"))
         .collect();
@@ -163,8 +189,19 @@ fn run_once(nums: &[u64]) -> (Vec<u64>, Vec<u64>) {
     let res = rt.run();
     let mut rest = TASKLOG.lock().unwrap().clone();
     match res {
-        Ok((_, time, profiler)) => {
+        Ok((app, time, profiler)) => {
             rest.extend([1, time.as_nanos() as u64, profiler.event_count as u64]);
+            let topo = app.globals().topology();
+            let dj = topo.dijkstra("src");
+            let mut hops: Vec<(String, String)> = dj
+                .iter()
+                .map(|(dst, e)| (dst.as_str().to_string(), e.to.gate().owner().path().as_str().to_string()))
+                .collect();
+            hops.sort();
+            for (dst, via) in hops {
+                rest.push(dst.bytes().map(u64::from).sum::<u64>());
+                rest.push(via.bytes().map(u64::from).sum::<u64>() * 1000 + via.len() as u64);
+            }
         }
         Err(_) => rest.push(0),
     }
